@@ -99,6 +99,11 @@ def run_variant(prop: str, v: Dict[str, Any], repo: str, renamed: bool = False) 
             res["status"] = "fired" if (hit and new_violation) else "MISSED"
             if hit:
                 res["reported"] = hit[0]["construct"][:120]
+        elif v.get("whole"):
+            # a behaviour-preserving refactoring written by someone else: the whole check must stay at exit 0
+            res["status"] = "silent" if cp.returncode == 0 else "STILL-REPORTED"
+            if cp.returncode != 0:
+                res["detail"] = cp.stdout[-400:]
         else:
             res["status"] = "silent" if not hit else "STILL-REPORTED"
     finally:
